@@ -230,3 +230,8 @@ def encode_sig(encoding, r, s, ob):
     if encoding == 'binary':
         return binary_sig(r, s, ob)
     return der_sig(r, s)
+
+
+def fips_l_n_ok(L, N):
+    """FIPS 186-3/4 section 4.2: the admitted (L, N) pairs, L = bit length of p, N = bit length of q"""
+    return (L == 1024 and N == 160) or (L == 2048 and N == 224) or (L == 2048 and N == 256) or (L == 3072 and N == 256)
